@@ -1,6 +1,6 @@
 (* C09 — Rules hold on every reported row and fire on their schedule. *)
-From Coq Require Import ZArith Reals List Bool Arith.
-From BS Require Import Base.Arith Model.Term Model.Rules Model.SSA Proofs.RuleProofs.
+From Coq Require Import ZArith Reals List Bool Arith Sorted.
+From BS Require Import Base.Arith Model.Term Model.Propensity Model.Interface Model.Rules Model.Random Model.SSA Proofs.RuleProofs Proofs.RuleCount.
 Import ListNotations.
 
 (* Expression evaluation depends only on the species the expression reads (any arithmetic). *)
@@ -49,9 +49,27 @@ Theorem C09_scheduled_rule_fires_at :
   forall (r : rule R) (t : R) step, (0 <= ru_freq r)%R -> (fires ArithR r t step = true <-> ru_freq r = t).
 Proof. exact scheduled_rule_fires_at. Qed.
 
-(* The counting statements "exactly once per elapsed step" over whole runs, the delay / volume /
-   deterministic / lineage loops are decided by the stream replay and the harness oracle
-   (counter, ODE and scheduled rules); not mechanised (C09_partial). *)
+(* Whole-run counting for the SSA loop (reals; every network incl. rules, stream with uniforms in (0,1], fuel;
+   strictly increasing grid not before t0; non-negative propensities): the iterations that start with rule_step
+   set -- exactly those in which every dt rule fires (C09_dt_rule_fires_iff_rule_step) -- number, at EVERY
+   iteration boundary m of the run, (rows reported so far) + (1 if rule_step is cleared, i.e. the application for
+   the row to come has already been made): one application between consecutive rows, made before the row is
+   recorded; over the whole run as many as requested times.  The only exclusion is the null event of a firing
+   time equal to a grid time (notie_run). *)
+Theorem C09_dt_rules_once_per_row :
+  forall (s : sim R) (u : nat -> R), (forall n, 0 < u n <= 1)%R ->
+  (forall x p V t, 0 <= array_sum ArithR (stoch_props ArithR s Stoch x p V t))%R ->
+  forall ts fuel pos st, StronglySorted Rlt ts -> Forall (fun t => sm_t0 s <= t)%R ts ->
+  ssa_simulate ArithR fuel s ts u pos = Done st ->
+  exists n, ssa_run s u n (ssa_init s ts pos) = Done st /\
+    (notie_run s u n (ssa_init s ts pos) ->
+       apps s u n (ssa_init s ts pos) = length ts /\ length (ss_rows st) = length ts /\
+       forall m stm, (m <= n)%nat -> ssa_run s u m (ssa_init s ts pos) = Done stm ->
+         apps s u m (ssa_init s ts pos) = (length (ss_rows stm) + (if ss_rule_step stm then 0 else 1))%nat).
+Proof. exact dt_rules_once_per_row. Qed.
+
+(* The counting statements for the delay / volume / deterministic / lineage loops are decided by the stream
+   replay and the harness oracle (counter, ODE and scheduled rules); not mechanised (C09_partial). *)
 
 Print Assumptions C09_eval_frame.
 Print Assumptions C09_assignment_fixpoint.
@@ -60,3 +78,4 @@ Print Assumptions C09_rule_step_bookkeeping.
 Print Assumptions C09_dt_rule_fires_iff_rule_step.
 Print Assumptions C09_repeat_rule_always_fires.
 Print Assumptions C09_scheduled_rule_fires_at.
+Print Assumptions C09_dt_rules_once_per_row.
